@@ -348,6 +348,9 @@ class SyncClient(Stack):
 
 from bacpypes.primitivedata import Real as _Real, Unsigned as _Unsigned, Enumerated as _Enumerated
 from bacpypes.basetypes import StatusFlags as _StatusFlags
+from bacpypes.apdu import Error as _Error, RejectPDU as _RejectPDU, AbortPDU as _AbortPDU
+from bacpypes.core import deferred as _core_deferred
+from bacpypes.task import FunctionTask as _FunctionTask
 
 
 class SubscriberApp(RecordingMixin, Application):
@@ -356,6 +359,9 @@ class SubscriberApp(RecordingMixin, Application):
         self.rec_init(name, events)
         self.notifications = []
         self.confirmed_reply = "ack"
+        self.ack_delay = 0.0        # seconds a confirmed notification stays unanswered
+        self.defer_ack = False      # answer confirmed notifications on the next turn of the loop instead of at once
+        self.refuse_procs = {}      # process id -> 'error' | 'reject' | 'abort': how confirmed notifications for it are answered
 
     def _note(self, apdu, confirmed):
         vals = {}
@@ -376,7 +382,22 @@ class SubscriberApp(RecordingMixin, Application):
 
     def do_ConfirmedCOVNotificationRequest(self, apdu):
         self._note(apdu, True)
-        self.response(SimpleAckPDU(context=apdu))
+        how = self.refuse_procs.get(apdu.subscriberProcessIdentifier)
+        if how == "error":
+            answer = _Error(errorClass="services", errorCode="unknownSubscription", context=apdu)
+        elif how == "reject":
+            answer = _RejectPDU(reason=9, context=apdu)
+        elif how == "abort":
+            answer = _AbortPDU(reason=0, context=apdu)
+        else:
+            answer = SimpleAckPDU(context=apdu)
+        if self.ack_delay:
+            t = _FunctionTask(self.response, answer)
+            t.install_task(delta=self.ack_delay)
+        elif self.defer_ack:
+            _core_deferred(self.response, answer)
+        else:
+            self.response(answer)
 
     def do_UnconfirmedCOVNotificationRequest(self, apdu):
         self._note(apdu, False)
